@@ -136,5 +136,71 @@ verif_str_into_pathbuf($a)
         }
 //@end
 
+// ---- types of src/validators/affects.rs and what they mention ------------------------------------------
+//@item file=src/validators/mod.rs kind=struct name=ValidationContext
+//@item file=src/validators/affects.rs kind=struct name=AffectsValidator
+//@item file=src/validators/affects.rs kind=struct name=AffectsViolation
+//@item file=src/validators/affects.rs kind=struct name=AffectsValidatorDetector
+
+// T-dyn stand-ins: the two validator traits only occur as `Box<dyn ..>` inside `ValidatorType` here
+// (V6d builds `ValidatorType::Sync(Box::new(AffectsValidator::new()))`); their methods are not called.
+pub trait ValidatorSync {}
+pub trait ValidatorAsync {}
+impl ValidatorSync for AffectsValidator {}
+//@item file=src/validators/mod.rs kind=enum name=ValidatorType
+
+impl Block {
+//@unit id=V6n file=src/blocks.rs fn=<<impl Block::name>> ret=r
+//@contract
+        ensures opt_view(r) == attr_view(self.attributes@, "name"@), // [V6n.post.name_is_name_attribute]
+//@chain rule=E13 find=<<.map(String::as_str)>> to=verif_opt_as_str
+//@end
+}
+
+impl AffectsValidator {
+//@unit id=V6new file=src/validators/affects.rs fn=<<impl AffectsValidator::new>> ret=r
+//@end
+}
+
+// ---- V6c: the diagnostic ---------------------------------------------------------------------------------
+/// C10: "for drift ... violations the range spans exactly the block's start tag, from its `<` to its `>`";
+/// code "affects"; severity of the modified block; the payload names the reference that is not modified.
+pub open spec fn affects_violation_ok(v: Violation, b: Block, affected_file: &Path, affected_name: Seq<char>) -> bool {
+    &&& v.range.start == b.start_tag_position_range@.start
+    &&& v.range.end == b.start_tag_position_range@.end
+    &&& v.code@ == "affects"@
+    &&& Ok::<BlockSeverity, anyhow::Error>(v.severity) == severity_spec(b)
+    &&& exists|d: serde_json::Value, payload: AffectsViolation| v.data == Some(d) && #[trigger] serde_json::value_encodes(d, payload)
+            && payload.affected_block_file_path == affected_file && payload.affected_block_name@ == affected_name
+}
+
+//@unit id=V6c file=src/validators/affects.rs fn=create_violation ret=r
+//@contract
+    ensures
+        r matches Ok(v) ==> v.range.start == modified_block.start_tag_position_range@.start // [V6c.post.range_is_start_tag]
+            && v.range.end == modified_block.start_tag_position_range@.end,
+        r matches Ok(v) ==> v.code@ == "affects"@ && Ok::<BlockSeverity, anyhow::Error>(v.severity) == severity_spec(*modified_block), // [V6c.post.code_and_severity]
+        r matches Ok(v) ==> affects_violation_ok(v, *modified_block, affected_block_file_path, affected_block_name@), // [V6c.post.payload]
+        severity_spec(*modified_block) is Err ==> r is Err, // [V6c.post.bad_severity_is_err]
+//@macro rule=E1 name=format to=<<verif_message()>>
+//@dropcall rule=E1 name=context optional=1
+//@edit rule=E2 find=<<serde_json::to_value(>>
+verif_to_value(
+//@end
+
+// ---- V6d: the detector -----------------------------------------------------------------------------------
+impl AffectsValidatorDetector {
+//@unit id=V6d file=src/validators/affects.rs fn=<<impl validators::ValidatorDetector for AffectsValidatorDetector::detect>>
+//@sig rule=E7 was=<<fn detect(&self, block_with_context: &BlockWithContext,) -> anyhow::Result<Option<ValidatorType>>>>
+    fn detect(&self, block_with_context: &BlockWithContext) -> (r: anyhow::Result<Option<ValidatorType>>)
+//@contract
+        ensures
+            r is Ok, // [V6d.post.never_err]
+            r matches Ok(o) ==> (o is Some <==> (block_with_context.is_content_modified // [V6d.post.fires_iff_modified_and_affects]
+                && attr_view(block_with_context.block.attributes@, "affects"@) is Some)),
+            r matches Ok(Some(t)) ==> t is Sync, // [V6d.post.sync_validator]
+//@end
+}
+
 } // verus!
 fn main() {}
